@@ -1,4 +1,5 @@
 SPECIFICATION Spec
+CONSTANT PushImms = {128}
 CONSTANT MaxLen = 5
 INVARIANT Sane
 INVARIANT Unambiguous
